@@ -537,8 +537,9 @@ def loader_history_independent(ctx):
     import types
     repo = ctx["repo"]
     t0 = time.time()
-    if repo not in sys.path:
-        sys.path.insert(0, repo)
+    if repo in sys.path:
+        sys.path.remove(repo)
+    sys.path.insert(0, repo)
     for name in [n for n in sys.modules if n == "src" or n.startswith("src.")]:
         f = getattr(sys.modules[name], "__file__", "") or ""
         if f and not os.path.abspath(f).startswith(os.path.abspath(repo) + os.sep):
@@ -585,3 +586,116 @@ def loader_history_independent(ctx):
              "verdict": "refuted" if bad else "passed", "tool": "native differential", "budget": f"{cases} loads", "cases": cases,
              "note": "; ".join(bad)[:700], "solver": "native", "ms": round((time.time() - t0) * 1000, 1),
              "witness_confirmed": bool(bad), "witness": "; ".join(bad)[:700] or None}]
+
+
+# =================================================================== bounded differential at the observation point (a net under
+# the contracts, never counted as proved): whole runs of the real Orchestrator on generated configurations.
+# Oracle, from the property text only:
+#   carriers   the same configuration in .thailint.yaml, .thailint.json and pyproject.toml [tool.thailint] gives the same
+#              violations
+#   spelling   `magic-numbers:` and `magic_numbers:` give the same violations
+#   language   the configuration applied to a file depends on its LANGUAGE only: an extensionless script with a python
+#              shebang gets the violations of the identical .py file (per-language overrides included)
+#   order      linting [a, b] and [b, a] gives the same violations (no configuration leaks from one file to the next)
+#   enabled    `enabled: false` in a section silences exactly that linter
+@custom("c05-run-differential", props=["C05"])
+def run_differential(ctx):
+    import importlib
+    import json as _json
+    import random
+    import sys
+    import tempfile
+    from pathlib import Path
+    repo, seed, tier = ctx["repo"], int(ctx.get("seed", 0) or 0), ctx.get("tier", "quick")
+    t0 = time.time()
+    rng = random.Random(seed * 7919 + 5)
+    if repo in sys.path:
+        sys.path.remove(repo)
+    sys.path.insert(0, repo)
+    for name in [n for n in sys.modules if n == "src" or n.startswith("src.")]:
+        f = getattr(sys.modules[name], "__file__", "") or ""
+        if f and not os.path.abspath(f).startswith(os.path.abspath(repo) + os.sep):
+            del sys.modules[name]
+    bad, runs = [], 0
+    PY = ("class Thing:\n" + "".join(f"    def m{i}(self, x):\n        return x + {i + 11}\n\n" for i in range(4))
+          + "\ndef deep(x):\n    if x > 0:\n        for i in range(x):\n            while i:\n                if i == 7:\n"
+            "                    return 77\n    return 0\n")
+    TS = "export function f(x: number): number {\n  if (x > 0) {\n    for (let i = 0; i < x; i++) {\n      if (i === 3) {\n" \
+         "        return 4242;\n      }\n    }\n  }\n  return 0;\n}\n"
+    WATCHED = ("nesting", "srp", "magic-numbers")
+
+    def toml_of(cfg):
+        out = []
+        for sec, body in cfg.items():
+            flat = {k: v for k, v in body.items() if not isinstance(v, dict)}
+            out.append(f"[tool.thailint.{sec}]\n" + "".join(f"{k} = {_json.dumps(v)}\n" for k, v in flat.items()))
+            for k, v in body.items():
+                if isinstance(v, dict):
+                    out.append(f"[tool.thailint.{sec}.{k}]\n" + "".join(f"{kk} = {_json.dumps(vv)}\n" for kk, vv in v.items()))
+        return "\n".join(out)
+
+    try:
+        core = importlib.import_module("src.orchestrator.core")
+        ign = importlib.import_module("src.linter_config.ignore")
+        import yaml
+
+        def lint(cfg, carrier, files, order=None):
+            nonlocal runs
+            runs += 1
+            with tempfile.TemporaryDirectory() as d:
+                root = Path(d)
+                if carrier == "yaml":
+                    (root / ".thailint.yaml").write_text(yaml.dump(cfg, sort_keys=False), encoding="utf-8")
+                elif carrier == "json":
+                    (root / ".thailint.json").write_text(_json.dumps(cfg), encoding="utf-8")
+                else:
+                    (root / "pyproject.toml").write_text(toml_of(cfg), encoding="utf-8")
+                for name, text in files.items():
+                    (root / name).write_text(text, encoding="utf-8")
+                ign.clear_ignore_parser_cache()
+                orch = core.Orchestrator(project_root=root)
+                vs = []
+                for name in (order or sorted(files)):
+                    vs.extend(orch.lint_file(root / name))
+                return sorted((v.rule_id, Path(v.file_path).name, v.message) for v in vs if v.rule_id.split(".")[0] in WATCHED)
+
+        n = 2 if tier == "quick" else 6
+        for i in range(n):
+            # per-language overrides that DIFFER from the top-level value, alternately stricter and more permissive
+            lo, hi = rng.randint(1, 2), rng.randint(3, 4)
+            depth, pydepth = (hi, lo) if i % 2 == 0 else (lo, hi)
+            lo, hi = rng.randint(1, 3), rng.randint(4, 6)
+            methods, pymethods = (hi, lo) if i % 2 == 0 else (lo, hi)
+            allowed = sorted(rng.sample([0, 1, 7, 11, 12, 13, 14, 77, 4242], rng.randint(0, 5)))
+            cfg = {"nesting": {"max_nesting_depth": depth, "python": {"max_nesting_depth": pydepth}},
+                   "srp": {"max_methods": methods, "python": {"max_methods": pymethods}},
+                   "magic-numbers": {"allowed_numbers": allowed, "python": {"allowed_numbers": sorted(set(allowed) ^ {11, 77})}}}
+            files = {"a.py": PY, "b.ts": TS}
+            base = lint(cfg, "yaml", files)
+            for carrier in ("json", "toml"):
+                got = lint(cfg, carrier, files)
+                if got != base:
+                    bad.append(f"carriers: {cfg} gives {len(base)} violations from .thailint.yaml and {len(got)} from {carrier}")
+            under = dict(cfg)
+            under["magic_numbers"] = under.pop("magic-numbers")
+            if lint(under, "yaml", files) != base:
+                bad.append(f"spelling: magic_numbers: vs magic-numbers: differ for {cfg}")
+            if lint(cfg, "yaml", files, order=["b.ts", "a.py"]) != base:
+                bad.append(f"order: linting b.ts before a.py changes the violations for {cfg}")
+            script = lint(cfg, "yaml", {"tool": "#!/usr/bin/env python3\n" + PY})
+            plain = lint(cfg, "yaml", {"tool.py": PY})
+            if [(r, m) for r, _f, m in script] != [(r, m) for r, _f, m in plain]:
+                bad.append(f"language: a python-shebang script gets {len(script)} violations, the identical .py file {len(plain)}, under {cfg}")
+            off = rng.choice(["nesting", "srp", "magic-numbers"])
+            cfg2 = {k: dict(v) for k, v in cfg.items()}
+            cfg2[off]["enabled"] = False
+            got = lint(cfg2, "yaml", files)
+            want = [v for v in base if v[0].split(".")[0] != off]
+            if got != want:
+                bad.append(f"enabled: `{off}: enabled: false` leaves {len(got)} violations, expected {len(want)}")
+    except BaseException as e:  # noqa
+        bad.append(f"harness error {type(e).__name__}: {e}")
+    return [{"name": "custom:c05-run-differential/orchestrator-runs", "kind": "bounded", "verdict": "refuted" if bad else "passed",
+             "tool": "native differential (Orchestrator runs)", "budget": f"{runs} runs, seed {seed}", "cases": runs,
+             "note": "; ".join(bad)[:800], "solver": "native", "ms": round((time.time() - t0) * 1000, 1),
+             "witness_confirmed": bool(bad), "witness": "; ".join(bad)[:800] or None}]
